@@ -54,11 +54,11 @@ def oracle(cases, obs, twin_obs):
                 if o["err"] is None and tr and armed < nwrites and taint is None and not any(tk[1] == "knob" for tk in o["tasks"]):
                     fails.append((i, k, f"write {armed} of the update was to raise but the call returned normally")); break
                 if o["err"] == "Fault":
-                    pending.add(json.dumps(op[1]))
+                    pending.add(json.dumps(mc.flat(op[1])))
                     if armed == 0 and o["trace"]:
                         fails.append((i, k, "tasks ran although the initial write failed")); break
-            if op[0] == "set" and armed is None and o["err"] is None and json.dumps(op[1]) in pending:
-                pending.discard(json.dumps(op[1]))
+            if op[0] == "set" and armed is None and o["err"] is None and json.dumps(mc.flat(op[1])) in pending:
+                pending.discard(json.dumps(mc.flat(op[1])))
                 # definitions that a run that never faulted also leaves unevaluated (load/register do not run tasks) do not count
                 ref = set(json.dumps(x[0]) for x in ((t or {}).get("oracle", {}).get("inconsistent") or []))
                 mine = [x for x in (o["oracle"].get("inconsistent") or []) if json.dumps(x[0]) not in ref]
